@@ -18,21 +18,35 @@ MANIFEST = dict(
           "argument lists, array accesses, set literals, all 8 binary levels); C06_precedence / C06_left_assoc / C06_parentheses for ALL operator pairs "
           "(+ all 529 pairs by vm_compute on the memoised model). C06_range_encloses, C06_innermost_is_ident for expression trees under the explicit "
           "token-order hypothesis. C06_type_roundtrip: every type form (basic, sized, enum, refto/listof with options and inverse, literal ranges, sets, "
-          "pointers, instanceof, array/sequence with one or two indexes, records with parent and nested field types, proc/func types); "
+          "pointers, instanceof, array/sequence with one or two indexes, records with parent and nested field types, proc/func types, composed types "
+          "T + (a, b) + U with basic / enum operands, left associative); "
           "C06_params_roundtrip: absent/empty/typed/untyped parameters with const/var/inout. C06_stmt_roundtrip: assignment, expression statement, "
           "return, exit/break/continue, comment, var (any type, optional absolute), const/uses/type inside bodies, while, loop, repeat-until, for, "
-          "foreach (downto/using), switch with when value lists / ranges and else, if/elseif/else, arbitrarily nested. C06_decl_roundtrip: class/module "
+          "foreach (downto/using), switch with when value lists / ranges and else, if/elseif/else, OQL select / fetch, arbitrarily nested. "
+          "C06_oql_roundtrip (third round): select [top n] [distinct] items (asterisk, name( * ), name(), dot chains) from sources (conditional / "
+          "allversionsof / phantomstoo, alias in class [++], outer joins with a comparison) [where e] [order by fields [descending]] [using x] and "
+          "fetch into targets [using x]: parse_oql_expr returns exactly the derived node; C06_oql_stmt_roundtrip: the same as a statement of a body "
+          "(so OQL statements are part of the file theorem). C06_oql_select_end: the or-else chain that picks the select node's end (using / order by / "
+          "where / from / items) IS the end of the last clause present; C06_oql_select_encloses: for lexer-ordered tokens the select node lies inside "
+          "its tokens and encloses EVERY clause present (limit, each item, each source with its joins, where, each order-by field, using); "
+          "C06_oql_encloses: every node of a select / fetch encloses its children. C06_decl_roundtrip: class/module "
           "header, uses, const (multilang), type declarations, fields (annotation, memory, any type, member modifiers, absolute), comments, proc/func "
-          "with plain or method#event names, parameter lists, modifiers private/protected/final/override/forward/external (forward/external: no body). "
+          "with plain or method#event names, parameter lists, modifiers private/protected/final/override/forward/external (forward/external: no body), "
+          "and (third round) an annotation in front of a class / module / type declaration (it leaves no node). In files (Decls) an annotation in front "
+          "of anything else -- a method, a constant, a uses list, another annotation, the end of the file -- is a declaration of its own: the code "
+          "ignores it and leaves an AstEmpty node (default range) among the root's children; that IS the derived tree (Ds_annot). "
           "C06_type/stmt/decl/file_encloses: for lexer-ordered tokens every node of every derivable declaration (types, parameters, statements nested "
-          "to any depth) lies inside its tokens and encloses its children. C06_file_roundtrip: for every derivable file, parse_gold ITSELF (memoised, default fuel) returns exactly the derived declarations, every "
+          "to any depth, OQL) lies inside its tokens and encloses its children. C06_file_roundtrip: for every derivable file, parse_gold ITSELF (memoised, default fuel) returns exactly the derived declarations, every "
           "token consumed, zero diagnostics; C06_file_roundtrip_any: the same for memoisation on/off and ANY fuel above the number of tokens -- no "
           "hypothesis on the derivation level (C06_parse_gold_fuel_independent: C07's memo simulation at two independent fuel levels). "
-          "CORRESPONDENCE ONLY (a test): OQL select/fetch statements, annotations in front of declarations other than fields, composed types "
-          "(T + (a, b)), the position lookup outside expression trees (range enclosure IS proved for every derivable construct: C06_file_encloses), the lexer "
+          "CORRESPONDENCE ONLY (a test): annotations in front of record fields and enum variants, OQL select items that are dot chains starting with a "
+          "call, an OQL select as the collection of a foreach, the position lookup outside expression trees (range enclosure IS proved for every "
+          "derivable construct: C06_file_encloses; the lookup itself is compared with the REAL search_encasing_node by engine E-encase), the lexer "
           "(text -> tokens) in front of the parser, random layout. The test: all ordered operator pairs of the regenerated ladder plain and with both "
           "bracketings (expected trees from the property's own precedence table), each of the 20 statement forms inside every body of each of the 7 "
-          "block statements, random generated programs (every construct above, incl. untyped parameters, annotations, uses/type/var-absolute in bodies) "
+          "block statements, random generated programs (every construct above, incl. untyped parameters, composed types, annotations in front of "
+          "fields / type declarations / class and module headers / methods / constants / uses lists / at the end of the file, uses/type/var-absolute "
+          "in bodies, OQL) "
           "under random layout; model = implementation on the complete observation, and on the implementation's output alone: zero diagnostics, nothing "
           "unconsumed, the generator's expected shape (same kinds, names, nesting, order; comment nodes aside: comments are layout), every range "
           "encloses its children's, search_encasing_node finds every identifier terminal."),
@@ -43,7 +57,18 @@ MANIFEST = dict(
           "multi-line string literal's token END lies on its start line, parents take their end from the same token, enclosure holds. "
           "Comments between statements are layout (the property's quantifier): trees are compared modulo AstComment nodes, comments are generated in every "
           "position. Documented fact about the grammar, not a refutation (C06_comment_node_dropped_before_block): a comment directly in front of a block "
-          "statement, a block terminator or a top-level proc/func yields no AstComment node (exp_token skips comments), elsewhere the node is kept."),
+          "statement, a block terminator or a top-level proc/func yields no AstComment node (exp_token skips comments), elsewhere the node is kept. "
+          "Third round: the statement theorems carry a token-level follow condition (jfollow): what follows a statement does not start with an identifier "
+          "spelled like an OQL join word (outerjoinon, leftouterjoinon, rightouterjoinon, fullouterjoinon, any letter case) -- the from-clause of a select "
+          "would take it for a join -- and, for the same reason, a derivable statement that starts with an identifier does not start with such a word. "
+          "An annotation is ignored by the code except in front of fields, type declarations, classes and modules; elsewhere it leaves an AstEmpty node "
+          "with the default range 0:0-0:0 in the root (C06_file_encloses states enclosure per declaration tree; the root and that empty node have no "
+          "positions). NOT attempted as a theorem: the position lookup for every token-carrying node of a file (C06_innermost_everywhere). As literally "
+          "stated it is false at token boundaries (Range::contains_pos is inclusive at both ends and the lookup takes the FIRST containing child: in "
+          "`a++b++` the position where `++` ends and `b` starts belongs to the first statement), a true version needs positions strictly after the token "
+          "start (or non-touching tokens) plus a sibling-order invariant that enc_tree does not carry, through all ~60 constructs, with AstFunction's "
+          "children out of source order; it stays a correspondence check against the real search_encasing_node (E-encase, every token-carrying node, "
+          "start / middle / end)."),
     design="6 C06",
     engines=[dict(name="E-parse", path="harness/src/eng_parse.rs, treedump.rs + coq/extract/eng_parse.ml, tree_io.ml",
                   kind_free_text="differential: lex+parse_gold vs extracted Coq lexer+parser model on generated programs; independent oracle: expected tree shape from vlib/goldgen.py + checks/c06gen.py, range enclosure, search_encasing_node re-implemented over the dump"),
@@ -56,6 +81,8 @@ ASSUMPTIONS = [
     "the operator ladder is regenerated from /repo/src/parser/body_parser.rs on every run (translator T3); lexemes of the operators are cross-validated against the real lexer",
     "the generator's expected trees (vlib/goldgen.py) and the precedence table goldgen.OP_LEVELS are the property's specification, independent of model and code",
     "sub-grammar proved vs correspondence-only: see MANIFEST text and Properties/C06.v C06_file_roundtrip_partial",
+    "statement theorems assume that a statement is not followed by (and, when it starts with an identifier, does not start with) an identifier spelled like an OQL join word (jfollow): the from-clause of a preceding select would take it for a join",
+    "an annotation in front of a method, constant, uses list, another annotation or the end of the file is ignored by the code and leaves an AstEmpty node in the root: the derived tree (Ds_annot) contains that node, the generator's expected tree too",
 ]
 
 
